@@ -921,3 +921,139 @@ theorem notField_reads (n : String) (v : Int) : ∀ os : List (Nat × Bool), rea
 
 
 end Typedpy.Sched
+
+namespace Typedpy.Sched
+
+/-! ### same-value writes -/
+
+theorem uniformB_tail {k : Nat → String} {s : Step} {rest : List Step} (h : uniformB k (s :: rest) = true) :
+    uniformB k rest = true := by
+  simp only [uniformB, List.all_cons, Bool.and_eq_true] at h
+  exact h.2
+
+theorem uniformB_head_write {k : Nat → String} {c : Nat} {n : Nm} {rest : List Step}
+    (h : uniformB k (.write c n :: rest) = true) : n = .const (k c) := by
+  simp only [uniformB, List.all_cons, Bool.and_eq_true] at h
+  simpa using h.1
+
+/-- one step of a thread depends on the store only through the cells its NEXT step reads -/
+theorem stepT_congr_head (sh1 sh2 : Shared) (t : TState)
+    (h : ∀ s rest, t.prog = s :: rest → ∀ c ∈ s.readCells, sh1 c = sh2 c) : (stepT sh1 t).2 = (stepT sh2 t).2 := by
+  unfold stepT
+  split
+  · rfl
+  · rfl
+  · next s rest he hp => exact Step.local_congr s sh1 sh2 rest t (h s rest hp)
+
+theorem stepT_uniform (k : Nat → String) (sh : Shared) (t : TState) (hu : uniformB k t.prog = true) :
+    uniformB k (stepT sh t).2.prog = true ∧ ∀ c, (stepT sh t).1 c = sh c ∨ (stepT sh t).1 c = k c := by
+  unfold stepT
+  split
+  · exact ⟨hu, fun c => Or.inl rfl⟩
+  · exact ⟨hu, fun c => Or.inl rfl⟩
+  · next s rest he hp =>
+    rw [hp] at hu
+    refine ⟨by rw [Step.local_prog]; exact uniformB_tail hu, fun c => ?_⟩
+    cases s with
+    | write c' n =>
+      have hn := uniformB_head_write hu
+      subst hn
+      simp only [Step.shared, Shared.set, Nm.eval]
+      by_cases hc : c = c'
+      · right; simp [hc]
+      · left; simp [hc]
+    | _ => exact Or.inl rfl
+
+/-- Same-value writes: if every write of every thread stores the constant `k c` into cell `c`, and thread `i` reads a cell
+    only after it has itself written it, then after EVERY schedule thread `i` is exactly where it is when run alone. -/
+theorem run_uniform (k : Nat → String) (i : Nat) (sched : List Nat) :
+    ∀ (cfg : Cfg) (t : TState) (sha : Shared) (w : List Nat),
+      cfg.threads[i]? = some t →
+      (∀ (j : Nat) (tj : TState), cfg.threads[j]? = some tj → uniformB k tj.prog = true) →
+      readsAfterOwnWrite w t.prog = true →
+      (∀ c ∈ w, cfg.shared c = k c ∧ sha c = k c) →
+      (run cfg sched).threads[i]? = some (alone sha t (sched.count i)).2 := by
+  induction sched with
+  | nil => intro cfg t sha w ht _ _ _; simpa [run, alone] using ht
+  | cons j rest ih =>
+    intro cfg t sha w ht hu hr hw
+    rw [run_cons]
+    have hu' : ∀ (j' : Nat) (tj : TState), (stepAt cfg j).threads[j']? = some tj → uniformB k tj.prog = true := by
+      intro j' tj htj
+      rcases stepAt_thread_cases cfg j j' tj htj with h1 | ⟨tk, h1, h2⟩
+      · exact hu j' tj h1
+      · rw [h2]; exact (stepT_uniform k cfg.shared tk (hu j' tk h1)).1
+    by_cases hji : j = i
+    · subst hji
+      rw [List.count_cons_self, alone_succ]
+      have hloc : (stepT cfg.shared t).2 = (stepT sha t).2 := by
+        apply stepT_congr_head
+        intro s rest' hp c hc
+        rw [hp] at hr
+        simp only [readsAfterOwnWrite, Bool.and_eq_true, List.all_eq_true] at hr
+        have hcw : c ∈ w := by simpa using hr.1 c hc
+        rw [(hw c hcw).1, (hw c hcw).2]
+      have hth : (stepAt cfg j).threads[j]? = some (stepT sha t).2 := by
+        rw [stepAt_threads_self ht, hloc]
+      -- the written set after the step
+      cases hd : t.done with
+      | true =>
+        have h1 : stepT sha t = (sha, t) := stepT_done hd
+        have h2 : stepT cfg.shared t = (cfg.shared, t) := stepT_done hd
+        have hsh : (stepAt cfg j).shared = cfg.shared := by rw [stepAt_some ht, h2]
+        rw [h1] at hth ⊢
+        exact ih (stepAt cfg j) t sha w hth hu' hr (fun c hc => by rw [hsh]; exact hw c hc)
+      | false =>
+        -- t.prog = s :: rest', no error
+        have : ∃ s rest', t.prog = s :: rest' ∧ t.err = none := by
+          cases he : t.err with
+          | some e => simp [TState.done, he] at hd
+          | none =>
+            cases hp : t.prog with
+            | nil => simp [TState.done, he, hp] at hd
+            | cons s rest' => exact ⟨s, rest', rfl, rfl⟩
+        obtain ⟨s, rest', hp, he⟩ := this
+        have hst1 : stepT sha t = (s.shared sha, s.local sha rest' t) := by simp [stepT, he, hp]
+        have hst2 : stepT cfg.shared t = (s.shared cfg.shared, s.local cfg.shared rest' t) := by simp [stepT, he, hp]
+        have hprog : (stepT sha t).2.prog = rest' := by rw [hst1]; exact Step.local_prog _ _ _ _
+        have hus : uniformB k (s :: rest') = true := by rw [← hp]; exact hu j t ht
+        rw [hp] at hr
+        simp only [readsAfterOwnWrite, Bool.and_eq_true] at hr
+        apply ih (stepAt cfg j) (stepT sha t).2 (stepT sha t).1 (s.writeCells ++ w) hth hu'
+        · rw [hprog]; exact hr.2
+        · intro c hc
+          rw [stepAt_some ht, hst1, hst2]
+          show s.shared cfg.shared c = k c ∧ s.shared sha c = k c
+          cases s with
+          | write c' n =>
+            have hn := uniformB_head_write hus
+            subst hn
+            simp only [Step.writeCells, List.cons_append, List.nil_append, List.mem_cons] at hc
+            simp only [Step.shared, Shared.set, Nm.eval]
+            by_cases hcc : c = c'
+            · simp [hcc]
+            · simp only [hcc, if_false]
+              rcases hc with hc | hc
+              · exact absurd hc hcc
+              · exact hw c hc
+          | _ =>
+            simp only [Step.writeCells, List.nil_append] at hc
+            exact hw c hc
+    · have hc : (j :: rest).count i = rest.count i := by
+        rw [List.count_cons]; simp [hji]
+      rw [hc]
+      have hth : (stepAt cfg j).threads[i]? = some t := by rw [stepAt_threads_ne hji]; exact ht
+      apply ih (stepAt cfg j) t sha w hth hu' hr
+      intro c hcw
+      refine ⟨?_, (hw c hcw).2⟩
+      cases hj : cfg.threads[j]? with
+      | none => rw [stepAt_none hj]; exact (hw c hcw).1
+      | some tj =>
+        rw [stepAt_some hj]
+        show (stepT cfg.shared tj).1 c = k c
+        rcases (stepT_uniform k cfg.shared tj (hu j tj hj)).2 c with h | h
+        · rw [h]; exact (hw c hcw).1
+        · exact h
+
+
+end Typedpy.Sched
